@@ -23,8 +23,9 @@ cMenu == {R(p) : p \in cLeaf}
    \cup {B("*", B("+", R("a"), R("b")), R("c")), B("+", B("*", R("b"), L(2)), B("*", R("c"), L(3)))}
    \cup {[k |-> "rnd", a |-> B("*", R("a"), L(5)), p |-> R("b")]}
 
-cTaskSpec == [t \in {"F1", "K1"} |->
-   IF t = "F1" THEN [kind |-> "fn", deps |-> {"a", "b"}, targets |-> {"d"}, out |-> "d", ins |-> <<"a", "b">>]
+cTaskSpec == [t \in {"F1", "K1", "O1"} |->
+   IF t = "O1" THEN [kind |-> "obs", deps |-> {"a"}, targets |-> {}]
+   ELSE IF t = "F1" THEN [kind |-> "fn", deps |-> {"a", "b"}, targets |-> {"d"}, out |-> "d", ins |-> <<"a", "b">>]
    ELSE [kind |-> "knob", src |-> "a", deps |-> {"a"}, targets |-> {"b", "c"}, tl |-> <<"b", "c">>, w |-> <<2, 3>>]]
 
 INSTANCE Manager WITH KeepLoc <- "d", KeepExpr <- B("+", R("a"), L(1)), Loc <- cLoc, Leaf <- cLeaf, Par <- cPar, ValsOf <- cValsOf, InitMem <- cInitMem,
